@@ -5,7 +5,7 @@ from . import wire
 
 CLASSES = ['random_bytes', 'empty', 'short', 'truncated', 'unknown_type', 'unknown_stream', 'finished_stream', 'duplicate_request',
            'bad_continuation', 'setup_again', 'resume', 'conn_frame_on_stream', 'error_on_zero', 'request_n_zero', 'lease_unexpected',
-           'ignore_flag_garbage', 'metadata_flag_no_length', 'huge_metadata_length', 'resume_ok', 'ext']
+           'ignore_flag_garbage', 'metadata_flag_no_length', 'huge_metadata_length', 'resume_ok', 'ext', 'non_binary_message']
 
 
 def make(cls, p, dst, live, refs, w):
@@ -14,6 +14,14 @@ def make(cls, p, dst, live, refs, w):
     peer_parity = 1 if dst == 's' else 0       # ids the (hostile) peer of dst would open
     fresh = 1001 + (0 if peer_parity else 1) + 2 * rnd.randint(0, 50)
     own_parity_id = 1000 + (1 if dst == 'c' else 0) + 2 * rnd.randint(1, 50) + (1 if dst == 'c' else 0) * 0
+    if cls == 'non_binary_message':
+        # message transports only: a TEXT / PING / PONG websocket message between the BINARY ones (on a byte stream: a zero-length frame)
+        if w.mode != 'msg':
+            return [b''], 0, False
+        from .link import NonBinary
+        m = NonBinary(rnd.choice([b'hello', b'', wire.encode('CANCEL', sid=fresh)]))
+        m.kind = rnd.choice(['TEXT', 'PING', 'PONG'])
+        return [m], 0, False
     if cls == 'random_bytes':
         return [bytes(rnd.randrange(256) for _ in range(rnd.choice([6, 7, 9, 13, 40])))], 0, False
     if cls == 'empty':
